@@ -27,6 +27,9 @@ CHECKS = {
  "C08": ("exploration", "runtime monitoring: two reference-model oracles (an independent binder written from the spec, and CPython) judging every (signature, call) execution; exhaustive enumeration of the stated signature x call product in the thorough tier; sentinel monitors on UnpackArgs targets",
          "280 signatures x the full call product (thorough: 29.5M pairs, exhaustive in the stated bounds; quick: 150 sampled calls per signature) executed from source (CALL/CALL_VAR/CALL_KW/CALL_VAR_KW) and through starlark.Call; UnpackArgs/UnpackPositionalArgs specs x call shapes x argument types judged against an independent contract model with untouched-target sentinels.",
          TRUST + "CPython 3.11 argument binding; the independent binder.", "§5 C08"),
+ "C09": ("exploration", "runtime monitoring: fault planting with a construction-time oracle (one static-rule violation planted at a random syntactic position of a generated valid program; expected accept/reject for all 64 option vectors from an independent requirement analysis; reported error must lie in the planted construct's span; host-event monitor shows no code ran) + reference-evaluator oracle for the dynamic recursion rule over enumerated call graphs",
+         "45 plant kinds x placement contexts x 64 FileOptions vectors, compiled with SourceProgramOptions and (sampled) executed to show that rejected programs produce no host event; call graphs over <= 4 functions through plain calls, lambdas, two closures of one def and sorted/min/max callbacks, with Recursion on and off, compared with the reference evaluator.",
+         TRUST + "the requirement analysis is written for the shapes internal/gen produces; internal/refeval for the recursion rule.", "§5 C09"),
  "C10": ("exploration", "runtime monitoring: exact-arithmetic reference oracle (math/big, IEEE-754 bit rules) + algebraic identity monitors + CPython second oracle, run in two process configurations (address-space Int and fallback Int via ulimit -v) whose result digests must agree",
          "Operators, conversions, formatting, literals, range/enumerate/len/repetition and math.floor/ceil/round over boundary and random operands (to 2^200), through the Go API and through source text, in both Int representations.",
          TRUST + "math/big; CPython on a sample; the third Int representation (int_generic.go, 32-bit) cannot be executed in this VM.", "§5 C10"),
